@@ -1,7 +1,7 @@
 SPECIFICATION Spec
 CONSTANTS
   FullWidthPad = FALSE
-  EReps = {1, 1000}
+  EReps = {1, 1025}
   CovReps = {3}
   VReps = {1, 3}
   Vals = {1, 6}
